@@ -69,11 +69,13 @@ pub fn run(ctx: &mut Ctx) {
     for case in ctx.my_cases(total) {
         ctx.begin_case(case);
         let mut rng = ctx.rng(case);
-        let n1 = match rng.below(10) {
+        // sanitizer runs: one mid-size table (two build partitions), few queries
+        let small = std::env::var("VV_C04_SANITIZER").is_ok();
+        let n1 = if small { 2050 } else { match rng.below(10) {
             0..=4 => rng.range(20, 300),
             5..=7 => rng.range(1000, 1600),
             _ => rng.range(2200, 3600),
-        };
+        } };
         let n2 = rng.range(0, 40);
         let mut s = Session::new();
         s.record = false;
@@ -102,7 +104,7 @@ pub fn run(ctx: &mut Ctx) {
         }
         s.record = true;
         let size_class = if n1 < 1000 { "small" } else if n1 < 2000 { "medium" } else { "large" };
-        for _ in 0..rng.range(6, 14) {
+        for _ in 0..(if small { 10 } else { rng.range(6, 14) }) {
             let (sql, total_order, shape) = gen_query(&mut rng);
             let seq = run_with(&mut s, &sql, false);
             let par = run_with(&mut s, &sql, true);
